@@ -430,6 +430,14 @@ neu('N2-fit-predict-keyword-order', ALLP, [(D + 'cwmm.py', "            iteratio
 neu('N2-si-sdr-temporaries', ALLP, [('pb_bss/evaluation/module_si_sdr.py', "    ratio = np.sum(projection ** 2, axis=-1) / np.sum(noise ** 2, axis=-1)\n    return 10 * np.log10(ratio)", "    target_energy = np.sum(projection ** 2, axis=-1)\n    residual_energy = np.sum(noise ** 2, axis=-1)\n    return 10 * np.log10(target_energy / residual_energy)", False)])
 
 out = pathlib.Path(__file__).resolve().parent.parent / 'pbv' / 'selftest_corpus.json'
+# ---- R-OPT positive examples (the rule's instance count on the reference tree is zero)
+mut('C18-sensor-axis-truthiness', 'C18', 'pb_bss/extraction/mask_module.py', "    if sensor_axis is not None and not keepdims:\n", "    if sensor_axis and not keepdims:\n", expect='truthiness', props=['C18'])
+mut('C19-current-snr-truthiness', 'C19', 'pb_bss/evaluation/sxr_module.py', "    if current_snr is None:", "    if not current_snr:", expect='truthiness', props=['C19'])
+mut('C13-ref-channel-or-default', 'C13', 'pb_bss/extraction/beamformer.py', "        if reference_channel is None:\n            reference_channel = get_optimal_reference_channel(", "        if not reference_channel:\n            reference_channel = get_optimal_reference_channel(", expect='truthiness', props=['C13'])
+mut('C08-num-classes-truthiness', 'C08', D + 'gmm.py', "        if initialization is None and num_classes is not None:", "        if initialization is None and num_classes:", expect='truthiness', props=['C08'])
+# ---- R-USE positive example: an option that is accepted and dropped
+mut('C08-eigenvalue-floor-dropped', 'C08', D + 'cacgmm.py', "            hermitize=hermitize,\n            covariance_norm=covariance_norm,\n            eigenvalue_floor=eigenvalue_floor,\n        )\n        return CACGMM",
+    "            hermitize=hermitize,\n            covariance_norm=covariance_norm,\n        )\n        return CACGMM", expect='unused', props=['C08'])
 # ---- whole refactorings written by independent sub-agents (14-20 behaviour-preserving edits each, verified bit-identical on
 #      600-900 inputs per patch): every check must stay silent on each of them
 for r, what in (('R1', 'mixture_model_utils / cacgmm / cACG'), ('R2', 'cwmm / cbmm / Watson / Bingham / distribution.utils'), ('R3', 'gmm / gaussian / vMF / gcacgmm / vmfcacgmm'),
